@@ -45,10 +45,12 @@ let dispatch fn a =
   match fn with
   | "clean" -> string_of_text (x_clean (t 0))
   | "iban_new" -> out string_of_text (x_iban_new (t 0) (b 1) (b 2))
-  | "iban_validate" -> out string_of_bool' (x_iban_validate (b 1) (t 0))
-  | "iban_is_valid" -> out string_of_bool' (x_iban_is_valid (t 0))
+  | "iban_validate" -> out string_of_bool' (x_iban_validate (b 1) (x_clean (t 0)))
+  | "iban_is_valid" -> out string_of_bool' (x_iban_is_valid (x_clean (t 0)))
   | "iban_from_bban" -> out string_of_text (x_iban_from_bban (t 0) (t 1) (b 2) (b 3))
-  | "iban_formatted" -> string_of_text (x_iban_formatted (t 0))
+  | "iban_formatted" -> string_of_text (x_iban_formatted (x_clean (t 0)))
+  | "spec_iban_accept" -> string_of_bool' (s_iso_ok (x_clean (t 0)))
+  | "spec_from_bban" -> "OK " ^ string_of_text (t 0 @ s_check_digits (t 0) (t 1) @ t 1)
   | "re_chars" -> string_of_bool' (x_pat_apply x_chars_method x_chars_pat (t 0))
   | "re_row" ->
     (match x_row_regex (t 0) with
